@@ -76,6 +76,14 @@ CLAIMED = {
    text='Database.tla transcribes _merge_database_dicts, get_examples (alias union, overlap assert, augmentation on copies), _get_dataset (list recursion, weak memo), the alias property and JsonDatabase pickling, next to a statement-level reference; state machine over request histories (name / alias / list / repeat / Release / pickle round trip). TLC enumerates description families (contents, layouts over 1..3 merged parts with and without alias sections and extra keys, duplicates) x histories and checks the design; every behaviour is executed on the real DictDatabase and JsonDatabase (identity via weak references, Release = del + gc.collect(), deep comparison of the source dicts) and TLC judges ExamplesExact, AliasIsConcat, ListIsConcat, SourceUntouched, SharedWhileAlive, DuplicatesRejected, MergeTotal, PickledAgrees on the real observations.',
    note='A missing alias section is read as equivalent to an empty one (the alias property adds an empty section to the source dict). Empty datasets / unknown names / asserts on later parts are documented refusals, outside the statement.',
    tech='TLA+ model of the database layer, TLC enumeration + replay + trace validation'),
+ 'C09': dict(engine='cache', cat='model_checking', ref='DESIGN.md section 6 C09',
+   text='Isolation.tla: a heap model (objects with top-level and nested content, so deep and shallow copies differ) with stores holding BYTES or a REFERENCE exactly as each storage mode does (pickle, copy, wu, memory cache with pickle / copy warranty on first and later access, disk cache); histories of Access by index / key / slice / iteration / items / through a copy, MutateTop / MutateNested of any handed-out object, MutateOriginal. TLC enumerates all histories (quick <= 5 steps, 2 keys) and checks the design; each is replayed on real nested examples with deep in-place mutation, all read paths compared with the pristine snapshot and identities with `is`; TLC judges ReadsPristine and NoAlias on the real observations.',
+   note='pickle round-trip fidelity is trusted. In copy mode the statement makes no promise about the ORIGINAL container (stored by reference): exempt after MutateOriginal.',
+   tech='TLA+ heap/aliasing model, TLC BFS over histories + replay + trace validation'),
+ 'C10': dict(engine='cache', cat='model_checking', ref='DESIGN.md section 6 C10',
+   text='Cache.tla transcribes CacheDataset.__getitem__ / check() / copy (shared _cache, per-instance latch) with the upstream value of example i at its k-th computation = <<i, k>> ("freshly random per call"): histories of access by index of either sign, key, slice, iteration, items, copy, thread-prefetch worker, monotone MemDrop, eager snapshot. TLC enumerates all histories (quick: 3 examples, <= 4 steps) and checks the design; each is replayed on the real library (psutil.virtual_memory patched, call counters per example) plus seeded random long histories; TLC judges Transparent, FirstValue, ComputeOnce, NoCachingAfterDrop, FrozenBeforeDrop, AlwaysProduced, EagerSnapshot on the real observations.',
+   note='Memory is monotone (once low, stays low) as the quantifier states; the per-instance latch is therefore unobservable. Thread-prefetch access is sequentialised (copy(freeze) + ordered access).',
+   tech='TLA+ model of the memory cache, TLC BFS over access histories + replay + trace validation'),
 }
 
 PENDING_REASON = 'check not built yet in this round (specification planned in DESIGN.md section 6); will be claimed when its check exists'
@@ -119,6 +127,8 @@ def main():
              'kind_free_text': 'TLA+ specs Values/Ref/Impl/Obs/Pipeline/PipelineTrace checked with TLC; harness/{build,observe,pipeline}.py bind them to the code in both directions'},
             {'name': 'demand', 'path': '/verif/specs/Demand.tla', 'serves_properties': ['C08', 'C20'],
              'kind_free_text': 'Demand.tla / DemandTrace.tla / Profile.tla / ProfileTrace.tla + harness/check_demand.py, check_profile.py'},
+            {'name': 'cache', 'path': '/verif/specs/Cache.tla', 'serves_properties': ['C09', 'C10'],
+             'kind_free_text': 'Cache.tla / Isolation.tla + trace specs + harness/check_cache.py, check_isolation.py'},
             {'name': 'diskcache', 'path': '/verif/specs/DiskCache.tla', 'serves_properties': ['C11'],
              'kind_free_text': 'DiskCache.tla / DiskCacheTrace.tla + harness/check_diskcache.py'},
             {'name': 'random', 'path': '/verif/specs/Random.tla', 'serves_properties': ['C12', 'C13'],
